@@ -41,8 +41,10 @@ assert os.path.realpath(panoptica.__file__).startswith(os.path.realpath(REPO)), 
 class SerialPool:
     """`Pool()` stand-in: `starmap f xs = [f(*x) for x in xs]` (the modelled semantics)."""
 
-    def __init__(self, *a, **k):
-        pass
+    def __init__(self, processes=None, *a, **k):
+        # multiprocessing.Pool refuses a pool without workers
+        if processes is not None and processes < 1:
+            raise ValueError("Number of processes must be at least 1")
 
     def __enter__(self):
         return self
@@ -211,6 +213,9 @@ def err_class(e: BaseException) -> str:
     return type(e).__name__
 
 
+DICT_KEYS = False      # C15 switches this on: the key set of to_dict() must not depend on history or options (it does depend on the metrics requested)
+
+
 def result_summary(res: PanopticaResult, metrics) -> dict:
     """the observables of one PanopticaResult (never raises)"""
     out = {}
@@ -234,4 +239,9 @@ def result_summary(res: PanopticaResult, metrics) -> dict:
             out["list_" + m] = [float(x) for x in res.get_list_metric(METRICS[m], MetricMode.ALL)]
         except Exception as e:
             out["list_" + m] = "ERR:" + err_class(e)
+    if DICT_KEYS:
+        try:
+            out["dict_keys"] = sorted(str(k) for k in res.to_dict().keys())          # what the result reports as a dictionary
+        except Exception as e:
+            out["dict_keys"] = "ERR:" + err_class(e)
     return out
